@@ -84,7 +84,7 @@ def gen_cfg(rng, classes=None, equivariant: Optional[bool] = None, dims=(2, 2, 2
         "num_blocks": 1,
         "num_conv": rng.randint(1, 2),
         "num_downsamples": 1,
-        "torus": rng.choice([True, True, False]),
+        "torus": rng.choice([True, True, False, "mixed"]),
     }
     if cls == "UNet":
         cfg["spatial"] = [4] * D if D == 3 else rng.choice([[4, 4], [4, 8], [8, 4]])
@@ -159,7 +159,15 @@ def probe_input(cfg: dict, seed: int, integer: bool = False):
         shape = (c,) + tuple(cfg["spatial"]) + (D,) * k
         v = rs.randint(-4, 5, size=shape).astype(np.float32) if integer else rs.normal(size=shape).astype(np.float32)
         data[(k, p)] = jnp.asarray(v)
-    return geom.MultiImage(data, D, cfg["torus"])
+    return geom.MultiImage(data, D, torus_flags(cfg))
+
+
+def torus_flags(cfg: dict):
+    """True / False / per-axis mixed flags (first axis periodic, the others not)"""
+    t = cfg["torus"]
+    if t == "mixed":
+        return tuple(i == 0 for i in range(cfg["D"]))
+    return t
 
 
 # --------------------------------------------------------------------------- reachability oracle
